@@ -419,8 +419,8 @@ def evaluate_c(ctx, libs, cases, srecs, lrecs, with_model=True):
 
 
 def correspond_c(ctx):
-    rng = ctx.rng
-    libs, cases = gen_c(ctx, rng, ctx.scale(4, 24), ctx.scale(30, 100), "c20c")
+    """stand-alone form (part (c) only); `correspond` runs the same steps next to part (b)"""
+    libs, cases = gen_c(ctx, ctx.rng, ctx.scale(4, 24), ctx.scale(30, 100), "c20c")
     t0 = time.time()
     srecs, lrecs = run_c(ctx, libs, cases, shards=ctx.scale(4, 12))
     evaluate_c(ctx, libs, cases, srecs, lrecs)
@@ -875,15 +875,27 @@ def evaluate_ws(ctx, cases, res, with_model=True):
                          "jobs tree after the repair command differs between model and implementation")
 
 
-def correspond_b(ctx):
+def correspond_bc(ctx):
+    """parts (c) and (b): cases are generated first (one random stream), the two sets of worker processes run side by side,
+    the evaluation is sequential"""
+    from concurrent.futures import ThreadPoolExecutor
+
     rng = ctx.rng
+    clibs, ccases = gen_c(ctx, rng, ctx.scale(4, 24), ctx.scale(30, 100), "c20c")
     n = ctx.scale(260, 4000)
     cases = [gen_ws_case(rng, f"{ctx.seed}_{i}") for i in range(n)]
+    ctx.tmpdir()
     t0 = time.time()
-    res = run_ws_cases(ctx, cases, shards=16)
-    t1 = time.time()
+    with ThreadPoolExecutor(max_workers=1) as ex:
+        fc = ex.submit(run_c, ctx, clibs, ccases, ctx.scale(4, 12))
+        res = run_ws_cases(ctx, cases, shards=16)
+        t1 = time.time()
+        srecs, lrecs = fc.result()
+    t2 = time.time()
+    evaluate_c(ctx, clibs, ccases, srecs, lrecs)
     evaluate_ws(ctx, cases, res)
-    ctx.notes.append(f"(b) {n} workspace histories: real runs {t1 - t0:.1f}s, monitors + model {time.time() - t1:.1f}s")
+    ctx.notes.append(f"(c) {len(ccases)} graphs saved under version 1 and loaded under version 2, next to (b) {n} workspace histories: "
+                     f"real runs {t1 - t0:.1f}s / {t2 - t0:.1f}s, monitors + model {time.time() - t2:.1f}s")
 
 
 def correspond(ctx):
@@ -903,8 +915,7 @@ def correspond(ctx):
                         "links in the jobs tree point to job locations of the same workspace (links created by the command itself, or dangling)"]
     ctx.notes.append(f"command-line wiring of --cleanup read from cli/__init__.py: {cli_wiring()}")
     correspond_a(ctx)
-    correspond_c(ctx)
-    correspond_b(ctx)
+    correspond_bc(ctx)
 
 
 # ======================================================================================= findings, search, replay
